@@ -1066,7 +1066,7 @@ def check(run):
     nviol = {}
 
     def viol(q, impl_out, why, kind, doc=None, extra=None):
-        m_ = re.search(re.escape(BEYOND) + ": ", why[:200])
+        m_ = re.search(re.escape(BEYOND) + ": ", why)
         if m_:                                     # the reader's accuracy outside the one-rounding class: matched by the known finding
             why, extra = why[:m_.start()] + why[m_.end():], dict(extra or {}, **{"class": BEYOND})
         ck = kind + "/" + (extra or {}).get("class", "")
